@@ -11,8 +11,10 @@
 
   The theorems are about `Realm.handleMsg` (router/realm.go `handleInboundMessages` +
   `authzMessage`), for EVERY realm state `r`, session `s` and message `m`.  The Authorizer of the
-  model is the rule table `cfg.authz` evaluated by `authzDecision` ("allow" | "deny" | "fail";
-  the correspondence harness gives the real router an Authorizer reading the same table).  All
+  model is the rule table `cfg.authz` evaluated by `authzDecision` ("allow" | "allowerr" | "deny" |
+  "fail"; "allowerr" = the Authorizer returns (true, err): realm.go looks at the boolean only, the
+  error is ignored, so the message is ALLOWED — `C10_allowed_with_error`; the correspondence harness
+  gives the real router an Authorizer reading the same table).  All
   theorems are first proved for an ARBITRARY decision function `dec : SessKey → Msg → String`
   (`Realm.gateG`, `Realm.handleMsgG`); the model's gate is the instance `dec := authzDecision rules`
   (`C10_gate_instance`).
@@ -22,7 +24,7 @@
     `exempt la s`        s is the meta session, or s is local and local authorization is not required;
     `denialReply dec m`  none for a PUBLISH without acknowledge=true, else
                          ERROR(type of m, request id of m or 0, not_authorized | authorization_failed if dec = "fail");
-    `enqueue qs k e`     the queue table with e appended to k's queue; `queueOf qs k` the queue of k;
+    `enqueue qs k e`     the queue table with e appended to k's queue; `queueOfList qs k` the queue of k;
     `withCfg c r`        r with configuration c.
 
   clause                                                           theorem
@@ -41,15 +43,51 @@
   … the ERROR carries the type and request id of the request        C10_denied_reply_shape
   and the documented URI
   allowed ⇒ acted upon, exactly as without an Authorizer            C10_allowed, C10_allowed_general
+  allowed together with an error ("allowerr"): dispatched exactly    C10_allowed_with_error
+  like an allowed message, the gate queues no ERROR
   exemptions: meta session always; local sessions unless            C10_exempt
   localAuthz
   no Authorizer configured ⇒ every message is acted upon            C10_no_authorizer
-  "iff": acted upon ⇔ exempt ∨ no Authorizer ∨ decision = allow     C10_acted_upon_iff
+  "iff": acted upon ⇔ exempt ∨ no Authorizer ∨ decision ∈           C10_acted_upon_iff
+  {allow, allowerr} (the Authorizer returned true)
+
+  STEP LEVEL (one external input `Realm.step r (.msg k m)` = receive, gate, dispatch, run the
+  internal tasks to quiescence, show the queues to the clients):
+  between two inputs no internal task is pending                    step_tasks_nil, step_tick_tasks_nil,
+  (the hypothesis `r.tasks = []` of the step theorems)              reachable_tasks_nil
+  what a step does with a message, all cases: unknown or ending     C10_step_msg
+  session — nothing; handler busy in the yield retry loop — the
+  message waits in the transport (`inbox`, buffered sessions) or
+  is not taken at all (linked peer), NEITHER acted upon NOR
+  refused now; otherwise `handleMsg`, then the internal tasks
+  … a waiting message meets the gate when the handler reads it      C10_deferred_then_gated
+  refused ⇒ the WHOLE STEP is: the one reply (if any, if room)      C10_denied_step
+  queued, queues flushed — no internal task runs, nothing else
+  changes, nobody else observes anything
+  allowed ⇒ the whole step is: dispatch, then the internal tasks    C10_allowed_step
+  an Authorizer that returns true for everything: every step and    C10_allow_all_step,
+  every RUN of inputs (joins, messages, drops, the clock, …) makes   C10_allow_all_run
+  observable exactly what the realm without Authorizer makes
+  observable, and the states differ in `cfg.authz` only
+  ("allowed messages behave exactly as without an Authorizer",
+  for all message sequences)
 
   What "acted upon" means: `handleMsg r s m = dispatch r s m`.  "In the form the Authorizer left
   it": the Authorizer interface of nexus may rewrite the message and the session details; the rule
   table of the model (and of the harness) does not rewrite, so this part of the property is
   outside the model (recorded as an assumption of C10).
+
+  NOT MODELLED (audit D, C10 a1/c): (1) an Authorizer that REWRITES the message it is shown (nexus
+  hands the Authorizer the message itself; what it leaves is what is dispatched); (2) an Authorizer
+  that EDITS THE SESSION DETAILS (realm.go passes `safeSession{ID, Details}` under `sess.Lock()`; the
+  `Details` map is shared, so an Authorizer can change e.g. `authrole` as a side effect — also
+  when it then REFUSES the message, which "changes no router state" would have to except);
+  (3) a decision that depends on anything but the session key and the message (current session
+  details, Authorizer-internal state): `dec : SessKey → Msg → String`.  The general forms
+  (`C10_denied_general`, `C10_allowed_general`) cover every such function of key and message,
+  not more.  The run-level statement is for Authorizers that allow EVERYTHING; for a single allowed
+  message among refused ones the step-level statement is `C10_allowed_step` (dispatch, then the
+  internal tasks — which are the meta session's, exempt from the gate).
 
   QUEUE FULL.  The ERROR is handed to the sender with the router's non-blocking send: if the
   sender's outbound queue is full the reply is dropped and the realm is returned EXACTLY unchanged
@@ -60,6 +98,8 @@
   establishes before it calls `handleMsg`.
 -/
 import Nexus.L2.Proofs.RealmAuthz
+import Nexus.L2.Proofs.WpDRealmStep
+import Nexus.L2.Proofs.WpDAuthzRun
 
 namespace Nexus.C10
 open Nexus.L2 Nexus.L2.Realm Nexus.Gen.N
@@ -74,10 +114,11 @@ theorem C10_gate_instance (r : Realm) (s : Session) (m : Msg) :
 /-! ## Refused messages -/
 
 /-- GENERAL FORM, any Authorizer `dec`: a message of a non-exempt session whose decision is not
-    "allow" is not dispatched; the realm is returned as it was except that the reply (if any) has
-    been handed to the sender's queue by the non-blocking `trySend`. -/
+    "allow" (nor "allowerr": allowed together with an error) is not dispatched; the realm is returned
+    as it was except that the reply (if any) has been handed to the sender's queue by the non-blocking
+    `trySend`. -/
 theorem C10_denied_general (dec : SessKey → Msg → String) (localAuthz : Bool) (r : Realm) (s : Session) (m : Msg)
-    (hex : exempt localAuthz s = false) (hdec : dec s.key m ≠ "allow") :
+    (hex : exempt localAuthz s = false) (hdec : ¬ (dec s.key m = "allow" ∨ dec s.key m = "allowerr")) :
     handleMsgG (some dec) localAuthz r s m =
       match denialReply (dec s.key m) m with
       | none => r
@@ -89,7 +130,7 @@ theorem C10_denied_general (dec : SessKey → Msg → String) (localAuthz : Bool
     queue is full (reply dropped); otherwise the one ERROR appended to the sender's queue. -/
 theorem C10_denied (r : Realm) (rules : List AuthzRule) (s c : Session) (m : Msg)
     (hcfg : r.cfg.authz = some rules) (hex : exempt r.cfg.localAuthz s = false)
-    (hdec : authzDecision rules s.key m ≠ "allow")
+    (hdec : ¬ (authzDecision rules s.key m = "allow" ∨ authzDecision rules s.key m = "allowerr"))
     (hc : r.clients.find? (fun c => c.key == s.key) = some c) :
     handleMsg r s m =
       match denialReply (authzDecision rules s.key m) m with
@@ -102,7 +143,7 @@ theorem C10_denied (r : Realm) (rules : List AuthzRule) (s c : Session) (m : Msg
   rw [handleMsg_eq_handleMsgG, hcfg, Option.map_some, C10_denied_general _ _ r s m hex hdec]
   cases denialReply (authzDecision rules s.key m) m with
   | none => rfl
-  | some e => exact trySend_client hk hc e
+  | some e => exact trySend_client_enqueue hk hc e
 
 -- non-vacuity: a realm whose Authorizer denies every PUBLISH of the attached remote session 5
 def exRealm : Realm :=
@@ -123,16 +164,17 @@ example : exRealm.cfg.authz = some [⟨16, "", none, "deny"⟩, ⟨48, "", some 
     outbound queues is returned unchanged — in particular the broker (subscriptions, history), the
     dealer (registrations, calls, invocations, timers), the clients, the testaments, the pending
     internal tasks (meta-event publications, meta invocations, departures: none is added), the
-    yield retries, the sessions being ended, the counters and the panic flag. -/
+    yield retries, the deferred departures and the messages waiting in the transport (`inbox`), the
+    sessions being ended, the counters and the panic flag. -/
 theorem C10_denied_state (r : Realm) (rules : List AuthzRule) (s c : Session) (m : Msg)
     (hcfg : r.cfg.authz = some rules) (hex : exempt r.cfg.localAuthz s = false)
-    (hdec : authzDecision rules s.key m ≠ "allow")
+    (hdec : ¬ (authzDecision rules s.key m = "allow" ∨ authzDecision rules s.key m = "allowerr"))
     (hc : r.clients.find? (fun c => c.key == s.key) = some c) :
     let r' := handleMsg r s m
     r'.broker = r.broker ∧ r'.ds = r.ds ∧ r'.clients = r.clients ∧ r'.testaments = r.testaments ∧
     r'.tasks = r.tasks ∧ r'.retries = r.retries ∧ r'.ending = r.ending ∧ r'.deferred = r.deferred ∧
     r'.closedPeers = r.closedPeers ∧ r'.ghosts = r.ghosts ∧ r'.pubCount = r.pubCount ∧ r'.now = r.now ∧
-    r'.rnd = r.rnd ∧ r'.panic = r.panic ∧ r'.cfg = r.cfg ∧ r'.metaProcs = r.metaProcs := by
+    r'.rnd = r.rnd ∧ r'.panic = r.panic ∧ r'.cfg = r.cfg ∧ r'.metaProcs = r.metaProcs ∧ r'.inbox = r.inbox := by
   intro r'
   have h : r' = _ := C10_denied r rules s c m hcfg hex hdec hc
   rw [h]
@@ -147,13 +189,13 @@ theorem C10_denied_state (r : Realm) (rules : List AuthzRule) (s c : Session) (m
     grows by exactly the one reply. -/
 theorem C10_denied_queues (r : Realm) (rules : List AuthzRule) (s c : Session) (m : Msg)
     (hcfg : r.cfg.authz = some rules) (hex : exempt r.cfg.localAuthz s = false)
-    (hdec : authzDecision rules s.key m ≠ "allow")
+    (hdec : ¬ (authzDecision rules s.key m = "allow" ∨ authzDecision rules s.key m = "allowerr"))
     (hc : r.clients.find? (fun c => c.key == s.key) = some c) :
-    (∀ k, k ≠ s.key → queueOf (handleMsg r s m).queues k = queueOf r.queues k) ∧
-    queueOf (handleMsg r s m).queues s.key =
+    (∀ k, k ≠ s.key → queueOfList (handleMsg r s m).queues k = queueOfList r.queues k) ∧
+    queueOfList (handleMsg r s m).queues s.key =
       match denialReply (authzDecision rules s.key m) m with
-      | none => queueOf r.queues s.key
-      | some e => if r.queueLen s.key ≥ c.cap then queueOf r.queues s.key else queueOf r.queues s.key ++ [e] := by
+      | none => queueOfList r.queues s.key
+      | some e => if r.queueLen s.key ≥ c.cap then queueOfList r.queues s.key else queueOfList r.queues s.key ++ [e] := by
   rw [C10_denied r rules s c m hcfg hex hdec hc]
   cases denialReply (authzDecision rules s.key m) m with
   | none => exact ⟨fun _ _ => rfl, rfl⟩
@@ -162,10 +204,10 @@ theorem C10_denied_queues (r : Realm) (rules : List AuthzRule) (s c : Session) (
     split
     · exact ⟨fun _ _ => rfl, rfl⟩
     · refine ⟨fun k hk => ?_, ?_⟩
-      · show queueOf (enqueue r.queues s.key e) k = _
-        rw [queueOf_enqueue, if_neg hk]
-      · show queueOf (enqueue r.queues s.key e) s.key = _
-        rw [queueOf_enqueue, if_pos rfl]
+      · show queueOfList (enqueue r.queues s.key e) k = _
+        rw [queueOfList_enqueue, if_neg hk]
+      · show queueOfList (enqueue r.queues s.key e) s.key = _
+        rw [queueOfList_enqueue, if_pos rfl]
 
 /-- The reply: none exactly for a PUBLISH without acknowledge=true; otherwise one ERROR carrying
     the message's type code, its request id (0 for messages without one), empty details, and
@@ -196,9 +238,10 @@ theorem C10_denied_reply_shape (dec : String) (m : Msg) :
 
 /-! ## Allowed messages -/
 
-/-- GENERAL FORM: decision "allow" ⇒ the message is dispatched on the unchanged realm. -/
+/-- GENERAL FORM: decision "allow" — or "allowerr", the Authorizer's `true` accompanied by an error —
+    ⇒ the message is dispatched on the unchanged realm. -/
 theorem C10_allowed_general (dec : SessKey → Msg → String) (localAuthz : Bool) (r : Realm) (s : Session) (m : Msg)
-    (h : dec s.key m = "allow") : handleMsgG (some dec) localAuthz r s m = dispatch r s m :=
+    (h : dec s.key m = "allow" ∨ dec s.key m = "allowerr") : handleMsgG (some dec) localAuthz r s m = dispatch r s m :=
   handleMsgG_allow dec localAuthz r s m h
 
 /-- No Authorizer configured: every message is dispatched. -/
@@ -206,11 +249,12 @@ theorem C10_no_authorizer (r : Realm) (s : Session) (m : Msg) (h : r.cfg.authz =
     handleMsg r s m = dispatch r s m := by
   rw [handleMsg_eq_handleMsgG, h]; rfl
 
-/-- "Allowed messages behave exactly as without an Authorizer": if the decision is "allow",
-    `handleMsg` equals `handleMsg` of the same realm with the Authorizer removed from its
+/-- "Allowed messages behave exactly as without an Authorizer": if the decision is "allow" (or
+    "allowerr"), `handleMsg` equals `handleMsg` of the same realm with the Authorizer removed from its
     configuration (`cfg.authz := none`), the configuration put back afterwards. -/
 theorem C10_allowed (r : Realm) (rules : List AuthzRule) (s : Session) (m : Msg)
-    (hcfg : r.cfg.authz = some rules) (hdec : authzDecision rules s.key m = "allow") :
+    (hcfg : r.cfg.authz = some rules)
+    (hdec : authzDecision rules s.key m = "allow" ∨ authzDecision rules s.key m = "allowerr") :
     handleMsg r s m = dispatch r s m ∧
     handleMsg r s m = withCfg r.cfg (handleMsg (withCfg { r.cfg with authz := none } r) s m) := by
   have h1 : handleMsg r s m = dispatch r s m := by
@@ -221,6 +265,35 @@ theorem C10_allowed (r : Realm) (rules : List AuthzRule) (s : Session) (m : Msg)
     ← dispatch_cfg, h1]
 
 example : authzDecision [⟨16, "", none, "deny"⟩] 5 (.subscribe 9 [] "t") = "allow" := by decide
+
+/-- ALLOWED WITH AN ERROR.  The Authorizer answers (true, err) — decision "allowerr": `authzMessage` looks at the
+    boolean only.  The gate hands the realm on UNCHANGED (so no ERROR — nothing at all — is queued by it) and
+    says "go on"; the message is dispatched, exactly as it is for the decision "allow" (for ANY two
+    Authorizers that differ in this respect only) and exactly as without an Authorizer. -/
+theorem C10_allowed_with_error (r : Realm) (rules : List AuthzRule) (s : Session) (m : Msg)
+    (hcfg : r.cfg.authz = some rules) (hdec : authzDecision rules s.key m = "allowerr") :
+    authzGate r s m = (true, r) ∧
+    handleMsg r s m = dispatch r s m ∧
+    handleMsg r s m = withCfg r.cfg (handleMsg (withCfg { r.cfg with authz := none } r) s m) ∧
+    (∀ (dec dec' : SessKey → Msg → String) (la : Bool), dec s.key m = "allowerr" → dec' s.key m = "allow" →
+      gateG (some dec) la r s m = (true, r) ∧
+      handleMsgG (some dec) la r s m = handleMsgG (some dec') la r s m) := by
+  obtain ⟨h1, h2⟩ := C10_allowed r rules s m hcfg (Or.inr hdec)
+  refine ⟨?_, h1, h2, ?_⟩
+  · rw [authzGate_eq_gateG, hcfg, Option.map_some]
+    exact gateG_allow _ _ r s m (Or.inr hdec)
+  · intro dec dec' la hd hd'
+    exact ⟨gateG_allow dec la r s m (Or.inr hd),
+      (handleMsgG_allow dec la r s m (Or.inr hd)).trans (handleMsgG_allow dec' la r s m (Or.inl hd')).symm⟩
+
+-- non-vacuity: a rule table that allows the SUBSCRIBEs of session 5 with an error
+example : authzDecision [⟨32, "", some 5, "allowerr"⟩] 5 (.subscribe 9 [] "t") = "allowerr" ∧
+    authzGate ({ cfg := { authz := some [⟨32, "", some 5, "allowerr"⟩] } } : Realm)
+      { key := 5, details := [], roles := [], isLocal := false } (.subscribe 9 [] "t") =
+      (true, ({ cfg := { authz := some [⟨32, "", some 5, "allowerr"⟩] } } : Realm)) := by
+  refine ⟨by decide, ?_⟩
+  exact (C10_allowed_with_error _ [⟨32, "", some 5, "allowerr"⟩] _ _ rfl (by decide)).1
+
 
 /-! ## Exemptions -/
 
@@ -249,14 +322,16 @@ example : exempt false { key := metaKey, details := [], roles := [], isLocal := 
 /-! ## The "iff" -/
 
 /-- For an attached session: either the message is dispatched (and then the session is exempt, or
-    no Authorizer is configured, or the Authorizer said "allow"), or it is refused (and then none
-    of these holds and the outcome is the one of `C10_denied`).  So a message is acted upon iff
-    the Authorizer allowed it. -/
+    no Authorizer is configured, or the Authorizer returned true: decision "allow", or "allowerr" when
+    it also returned an error), or it is refused (and then none of these holds and the outcome is the
+    one of `C10_denied`).  So a message is acted upon iff the Authorizer allowed it. -/
 theorem C10_acted_upon_iff (r : Realm) (s : Session) (m : Msg) :
     let allowed := exempt r.cfg.localAuthz s = true ∨ r.cfg.authz = none ∨
-                   ∃ rules, r.cfg.authz = some rules ∧ authzDecision rules s.key m = "allow"
+                   ∃ rules, r.cfg.authz = some rules ∧
+                     (authzDecision rules s.key m = "allow" ∨ authzDecision rules s.key m = "allowerr")
     (allowed → handleMsg r s m = dispatch r s m) ∧
-    (¬ allowed → ∃ rules, r.cfg.authz = some rules ∧ authzDecision rules s.key m ≠ "allow" ∧
+    (¬ allowed → ∃ rules, r.cfg.authz = some rules ∧
+        ¬ (authzDecision rules s.key m = "allow" ∨ authzDecision rules s.key m = "allowerr") ∧
         handleMsg r s m = match denialReply (authzDecision rules s.key m) m with
                           | none => r
                           | some e => r.trySend ⟨s.key, e⟩) := by
@@ -277,9 +352,179 @@ theorem C10_acted_upon_iff (r : Realm) (s : Session) (m : Msg) :
         cases h : exempt r.cfg.localAuthz s with
         | false => rfl
         | true => exact absurd (Or.inl h) hn
-      have hdec : authzDecision rules s.key m ≠ "allow" := fun h => hn (Or.inr (Or.inr ⟨rules, hcfg, h⟩))
+      have hdec : ¬ (authzDecision rules s.key m = "allow" ∨ authzDecision rules s.key m = "allowerr") :=
+        fun h => hn (Or.inr (Or.inr ⟨rules, hcfg, h⟩))
       refine ⟨rules, rfl, hdec, ?_⟩
       rw [handleMsg_eq_handleMsgG, hcfg, Option.map_some]
       exact C10_denied_general _ _ r s m hex hdec
+
+/-! ## One whole step, whole runs -/
+
+/-- QUIESCENCE.  After one external input other than the clock — from ANY realm state — no
+    internal task is pending (unless the model's fuel marker is set in `panic`).  This is the
+    hypothesis `r.tasks = []` of the step-level theorems below. -/
+theorem step_tasks_nil (r : Realm) (op : Realm.Op) (hop : ∀ ms, op ≠ .tick ms) (hp : (r.step op).2.panic = none) :
+    (r.step op).2.tasks = [] :=
+  WpD.step_tasks_nil r op hop hp
+
+/-- … the same for the clock, in a realm satisfying the realm invariant. -/
+theorem step_tick_tasks_nil {r : Realm} (hi : RealmInv r) (hf : FuelOnly r.panic) (ht : r.tasks = [] ∨ r.panic ≠ none)
+    (ms : Nat) (hp : (r.step (.tick ms)).2.panic = none) : (r.step (.tick ms)).2.tasks = [] :=
+  WpD.step_tick_tasks_nil hi hf ht ms hp
+
+/-- … hence in every realm state reachable from `Realm.create`. -/
+theorem reachable_tasks_nil {cfg : Config} {r : Realm} (h : Realm.Reachable cfg r) : r.tasks = [] ∨ r.panic ≠ none :=
+  WpD.Reachable.tasks_nil h
+
+-- non-vacuity: the empty realm is quiescent; so is every realm after a step (`step_tasks_nil`)
+example : ({} : Realm).tasks = [] := rfl
+
+theorem drain_taskFuel_nil (r : Realm) (h : r.tasks = []) : drain taskFuel r = r :=
+  drain_succ_nil 99999 r h
+
+/-- ONE STEP WITH A MESSAGE, ALL CASES (quiescent realm).  The message of a session the realm does
+    not hold, or of one that is ending, is not read.  While the session's handler sleeps in the
+    yield retry loop (`busy`) the message is neither acted upon nor refused: it waits in the
+    transport if the session is attached through a socket (`buffered`; it meets the gate when the
+    handler reads it, `C10_deferred_then_gated`), and is not taken at all from a linked peer.
+    Otherwise it goes through `handleMsg` — the gate of this file — and the internal tasks that
+    causes run to the end. -/
+theorem C10_step_msg (r : Realm) (k : SessKey) (m : Msg) (hq : r.tasks = []) :
+    r.step (.msg k m) =
+      match r.clients.find? (fun c => c.key == k) with
+      | none => r.flush
+      | some c =>
+        if r.ending.contains k then r.flush
+        else if r.busy k then (if c.buffered then ({ r with inbox := r.inbox ++ [(k, m)] } : Realm).flush else r.flush)
+        else (drain taskFuel (handleMsg r c m)).flush := by
+  rw [step_of_not_tick r _ (fun ms e => by cases e), stepOp_msg, recvMsg_eq]
+  cases hf : r.clients.find? (fun c => c.key == k) with
+  | none => simp only []; rw [drain_taskFuel_nil r hq]
+  | some c =>
+    simp only []
+    cases he : r.ending.contains k with
+    | true => simp only [if_true]; rw [drain_taskFuel_nil r hq]
+    | false =>
+      simp only [Bool.false_eq_true, if_false]
+      cases hb : r.busy k with
+      | true =>
+        simp only [if_true]
+        cases hbuf : c.buffered with
+        | true =>
+          simp only [if_true]
+          rw [drain_taskFuel_nil ({ r with inbox := r.inbox ++ [(k, m)] } : Realm) hq]
+        | false => simp only [Bool.false_eq_true, if_false]; rw [drain_taskFuel_nil r hq]
+      | false => simp only [Bool.false_eq_true, if_false]
+
+/-- A message that waited in the transport is gated when the handler reads it: the internal task
+    `inMsg k m` (created when the retry loop of `k`'s handler ends) is `recvMsg`, i.e. the same
+    case split as for a fresh message, with `handleMsg` — and so every theorem of this file —
+    applying at THAT moment, to the realm state and the Authorizer's answer of that moment. -/
+theorem C10_deferred_then_gated (r : Realm) (k : SessKey) (m : Msg) (c : Session)
+    (hc : r.clients.find? (fun c => c.key == k) = some c) (he : r.ending.contains k = false) (hb : r.busy k = false) :
+    r.runTask (.inMsg k m) = handleMsg r c m := by
+  rw [runTask_inMsg, recvMsg_eq, hc]
+  simp only [he, hb, Bool.false_eq_true, if_false]
+
+example : (exRealm.clients.find? (fun c => c.key == 5) = some exSess) ∧ exRealm.ending.contains 5 = false ∧
+    exRealm.busy 5 = false ∧ exRealm.tasks = [] := ⟨rfl, by decide, by decide, rfl⟩
+
+/-- REFUSED, THE WHOLE STEP.  In a quiescent realm, the message of an attached, non-exempt session
+    whose handler is free, refused by the Authorizer: the step is exactly "queue the one reply to
+    the sender (none for an unacknowledged PUBLISH; dropped if the sender's queue is full), then
+    show the queues to the clients".  No internal task runs (so no meta event, no testament, no
+    invocation, no departure), and the realm after the step is the flushed realm — every component
+    but the queues as before (`C10_denied_state`). -/
+theorem C10_denied_step (r : Realm) (rules : List AuthzRule) (c : Session) (k : SessKey) (m : Msg)
+    (hq : r.tasks = []) (hcfg : r.cfg.authz = some rules)
+    (hc : r.clients.find? (fun c => c.key == k) = some c)
+    (hex : exempt r.cfg.localAuthz c = false)
+    (hdec : ¬ (authzDecision rules k m = "allow" ∨ authzDecision rules k m = "allowerr"))
+    (he : r.ending.contains k = false) (hb : r.busy k = false) :
+    r.step (.msg k m) =
+      (match denialReply (authzDecision rules k m) m with
+       | none => r
+       | some e => if r.queueLen k ≥ c.cap then r else { r with queues := enqueue r.queues k e }).flush := by
+  have hk : c.key = k := (find?_key hc).2
+  rw [C10_step_msg r k m hq, hc]
+  simp only [he, hb, Bool.false_eq_true, if_false]
+  have hd := C10_denied r rules c c m hcfg hex (by rw [hk]; exact hdec) (by rw [hk]; exact hc)
+  rw [hk] at hd
+  rw [hd]
+  congr 1
+  apply drain_taskFuel_nil
+  cases denialReply (authzDecision rules k m) m with
+  | none => exact hq
+  | some e =>
+    dsimp only
+    split <;> exact hq
+
+-- non-vacuity: session 5 of `exRealm` is attached, not exempt, free; its PUBLISH is denied
+example : exRealm.tasks = [] ∧ exRealm.cfg.authz = some [⟨16, "", none, "deny"⟩, ⟨48, "", some 5, "fail"⟩] ∧
+    exRealm.clients.find? (fun c => c.key == 5) = some exSess ∧ exempt exRealm.cfg.localAuthz exSess = false ∧
+    ¬ (authzDecision [⟨16, "", none, "deny"⟩, ⟨48, "", some 5, "fail"⟩] 5 (.publish 7 [] "t" [] []) = "allow" ∨
+       authzDecision [⟨16, "", none, "deny"⟩, ⟨48, "", some 5, "fail"⟩] 5 (.publish 7 [] "t" [] []) = "allowerr") ∧
+    exRealm.ending.contains 5 = false ∧ exRealm.busy 5 = false :=
+  ⟨rfl, rfl, rfl, by decide, by decide, by decide, by decide⟩
+
+/-- ALLOWED, THE WHOLE STEP.  Same situation, the Authorizer returned true (or the session is
+    exempt, or no Authorizer is configured): the step is "dispatch the message, run the internal
+    tasks this causes, show the queues" — `dispatch` being the same function that runs without an
+    Authorizer (`C10_allowed`, `C10_no_authorizer`). -/
+theorem C10_allowed_step (r : Realm) (c : Session) (k : SessKey) (m : Msg)
+    (hq : r.tasks = []) (hc : r.clients.find? (fun c => c.key == k) = some c)
+    (hal : exempt r.cfg.localAuthz c = true ∨ r.cfg.authz = none ∨
+      ∃ rules, r.cfg.authz = some rules ∧ (authzDecision rules k m = "allow" ∨ authzDecision rules k m = "allowerr"))
+    (he : r.ending.contains k = false) (hb : r.busy k = false) :
+    r.step (.msg k m) = (drain taskFuel (dispatch r c m)).flush := by
+  have hk : c.key = k := (find?_key hc).2
+  rw [C10_step_msg r k m hq, hc]
+  simp only [he, hb, Bool.false_eq_true, if_false]
+  have := (C10_acted_upon_iff r c m).1 (by rw [hk]; exact hal)
+  rw [this]
+
+example : authzDecision [⟨16, "", none, "deny"⟩, ⟨48, "", some 5, "fail"⟩] 5 (.subscribe 9 [] "t") = "allow" := by decide
+
+/-- the realm with the Authorizer removed from its configuration -/
+def withoutAuthorizer (r : Realm) : Realm := withCfg { r.cfg with authz := none } r
+
+theorem alike_of_allow_all (r : Realm) (rules : List AuthzRule) (hcfg : r.cfg.authz = some rules)
+    (hall : ∀ k m, authzDecision rules k m = "allow" ∨ authzDecision rules k m = "allowerr") :
+    WpD.Alike r.cfg { r.cfg with authz := none } :=
+  ⟨⟨rfl, rfl⟩, WpD.gatePass_allowAll r.cfg rules hcfg hall, WpD.gatePass_none _ rfl⟩
+
+/-- AN AUTHORIZER THAT ALLOWS EVERYTHING, ONE STEP of any kind (join, message, drop, stall, resume,
+    the clock, …): what the step makes observable (queue contents, closed peers, panic flag) is
+    exactly what the same realm WITHOUT an Authorizer makes observable, and the new state is the
+    new state of that realm with the configuration put back.  This covers everything the step
+    runs: meta events, meta-procedure calls, departures, timeouts, yield retries and the messages
+    read from the transport afterwards. -/
+theorem C10_allow_all_step (r : Realm) (rules : List AuthzRule) (hcfg : r.cfg.authz = some rules)
+    (hall : ∀ k m, authzDecision rules k m = "allow" ∨ authzDecision rules k m = "allowerr") (op : Realm.Op) :
+    r.step op = (((withoutAuthorizer r).step op).1, withCfg r.cfg ((withoutAuthorizer r).step op).2) :=
+  WpD.alike_step (alike_of_allow_all r rules hcfg hall) r op
+
+/-- … AND WHOLE RUNS ("allowed messages behave exactly as without an Authorizer", for all input
+    sequences): the same observation at every step, the final states differ in `cfg.authz` only. -/
+theorem C10_allow_all_run (r : Realm) (rules : List AuthzRule) (hcfg : r.cfg.authz = some rules)
+    (hall : ∀ k m, authzDecision rules k m = "allow" ∨ authzDecision rules k m = "allowerr") (ops : List Realm.Op) :
+    WpD.runOps r ops =
+      ((WpD.runOps (withoutAuthorizer r) ops).1, withCfg r.cfg (WpD.runOps (withoutAuthorizer r) ops).2) :=
+  WpD.alike_run (alike_of_allow_all r rules hcfg hall) ops r
+
+-- non-vacuity: a rule table that returns true for everything, some of it with an error
+example : ∀ k m, authzDecision [⟨32, "", none, "allowerr"⟩, ⟨0, "", none, "allow"⟩] k m = "allow" ∨
+    authzDecision [⟨32, "", none, "allowerr"⟩, ⟨0, "", none, "allow"⟩] k m = "allowerr" := by
+  intro k m
+  unfold authzDecision
+  simp only [List.find?_cons]
+  split
+  · rename_i a h
+    split at h
+    · cases h; exact Or.inr rfl
+    · split at h
+      · cases h; exact Or.inl rfl
+      · cases h
+  · exact Or.inl rfl
 
 end Nexus.C10
